@@ -19,6 +19,16 @@ func C04(c *Ctx) int {
 			}
 		}
 	}
+	// the same tokens arriving over a single incoming flow (merged in front of the gateway)
+	gen.MergedArrival = true
+	for k := 1; k <= 3; k++ {
+		for dpos := -1; dpos <= k; dpos += 2 {
+			for tokens := 2; tokens <= 3; tokens++ {
+				ps = append(ps, gen.GatewayTable("xor", k, dpos, tokens, -1))
+			}
+		}
+	}
+	gen.MergedArrival = false
 	capN := 0
 	if c.Quick() {
 		capN = 24
@@ -26,6 +36,19 @@ func C04(c *Ctx) int {
 	if err := c.TokenGameRound(fs, ps, RoundOpts{Label: "table-expr", MaxSteps: 12, MaxPerProg: capN}); err != nil {
 		c.Infraf("%v", err)
 	}
-	c.Extra["programs"] = len(ps)
+	var loops []*prog.Program
+	for k := 1; k <= 3; k++ {
+		for dpos := -1; dpos <= k; dpos++ {
+			loops = append(loops, gen.GatewayTableLoop("xor", k, dpos, 1, -1, true))
+		}
+	}
+	sim := 400
+	if !c.Quick() {
+		sim = 4000
+	}
+	if err := c.TokenGameRound(fs, loops, RoundOpts{Label: "reentry", MaxSteps: 20, Simulate: sim}); err != nil {
+		c.Infraf("%v", err)
+	}
+	c.Extra["programs"] = len(ps) + len(loops)
 	return c.Finish("model_checking", "exclusive gateways with 1..4 conditional flows, default absent or at every list position, 1..3 tokens arriving concurrently; TLC enumerates every truth assignment (one decision task writes all condition variables) and every answer order; each schedule replayed on the real engine, validated by TokenGameTrace (branch task requested, no-flow error naming the gateway, independent pass-through)", !c.Quick(), fs)
 }
